@@ -445,7 +445,9 @@ func (app *App) addRoute(method string, route *Route, isMounted ...bool) {
 	l := len(app.stack[m])
 	if l > 0 && app.stack[m][l-1].Path == route.Path && route.use == app.stack[m][l-1].use && !route.mount && !app.stack[m][l-1].mount {
 		preRoute := app.stack[m][l-1]
-		preRoute.Handlers = append(preRoute.Handlers, route.Handlers...)
+		// the routes that All/Add create for several methods share one handler slice: never
+		// append into its spare capacity, another method's route would see the handler too
+		preRoute.Handlers = append(preRoute.Handlers[:len(preRoute.Handlers):len(preRoute.Handlers)], route.Handlers...)
 	} else {
 		// Increment global route position
 		route.pos = atomic.AddUint32(&app.routesCount, 1)
